@@ -14,3 +14,4 @@ from . import c_headers_write  # noqa
 from . import c_reader_init  # noqa
 from . import c_export  # noqa
 from . import c_reblock  # noqa
+from . import c_glue  # noqa
